@@ -575,6 +575,32 @@ OBJ_VALUES = ["<absent>", None, 1, True, "a", " ", " a ", 1.5, "a/b", "ff", [], 
               {"a": 1, "b": "x"}, {"q": "x"}, [{"a": 1}], 2, "b", ["a/b"], [{"a": 1, "b": "x"}]]
 
 
+def loosenings(d) -> List[Any]:
+    """child types that admit more than the parent type d (must be refused unless declared)"""
+    out = []
+    if not (d[0] == "union" and NONE in d[1]) and d[0] not in ("any",):
+        o = ("union", tuple(d[1]) + (NONE,)) if d[0] == "union" else opt(d)
+        out.append(o)
+    if d[0] == "prim" and d[1]:
+        out.append(("union", (d, ("lit", ("zz",)))) if d[2] != "str" else ("union", (d, S_INT)))
+    if d[0] == "lit":
+        out.append(("lit", d[1] + ("zz",)))
+    return [o for o in out if mergeable(o)]
+
+
+def pick_override(t, rng):
+    r = rng.random()
+    cands = narrowings(t)
+    if cands and r < 0.5:
+        return rng.choice(cands)
+    loose = loosenings(t)
+    if loose and r < 0.7:
+        return rng.choice(loose)
+    if r < 0.8:
+        return t
+    return rng.choice(FIELD_POOL)
+
+
 def good_value(d, rng):
     """a value a field of type d plausibly accepts"""
     k = d[0]
@@ -600,19 +626,13 @@ def good_value(d, rng):
 
 def gen_class_case(rng, idx) -> Dict[str, Any]:
     nf = rng.randint(1, 3)
-    p_fields = [(f"f{i}", (rng.random() < 0.15, rng.choice(FIELD_POOL))) for i in range(nf)]
+    p_fields = [(f"f{i}", (rng.random() < 0.3, rng.choice(FIELD_POOL))) for i in range(nf)]
     p_extra = rng.choice(["allow", "allow", "allow", "ignore", "forbid", "forbid"])
     p_consts = ["pc"] if rng.random() < 0.3 else []
     c_own = []
     for n, (ann, t) in p_fields:
         if rng.random() < 0.6:
-            cands = narrowings(t)
-            if cands and rng.random() < 0.6:
-                ct = rng.choice(cands)
-            elif rng.random() < 0.3:
-                ct = t
-            else:
-                ct = rng.choice(FIELD_POOL)
+            ct = pick_override(t, rng)
             c_own.append((n, (ann if rng.random() < 0.85 else not ann, ct)))
     if rng.random() < (0.15 if p_extra == "forbid" else 0.45):
         c_own.append(("n0", (False, rng.choice(FIELD_POOL))))
@@ -768,7 +788,7 @@ def run(ctx: vlib.Ctx):
 
     # ---- 1. is_subtype table
     hints_b = [(False, j) for j in range(len(types))]
-    n_at = len(atoms(full))
+    n_at = 2 * len(atoms(full)) - 1          # atoms and Optional[atom] also inside Annotated[...]
     hints_b_ann = [(True, j) for j in range(n_at)]
     rows = [(False, i) for i in range(len(types))] + [(True, i) for i in range(n_at)]
     all_b = hints_b + hints_b_ann
